@@ -897,6 +897,12 @@ def Commandable(
                 arrayIndex = priority
                 priority = None
 
+            # the slots of the priority array are only changed by commands
+            elif (property == priorityArray) and (arrayIndex is not None) and (not direct):
+                raise ExecutionError(
+                    errorClass="property", errorCode="writeAccessDenied"
+                )
+
             # update the priority array entry
             if property == priorityArray:
                 if arrayIndex is None:
